@@ -113,6 +113,43 @@ theorem C02_midpoints (cs : List Rat) (m : Rat) (hs : (0 :: cs).Pairwise (· ≤
   obtain ⟨h1, h2, _⟩ := midpointEdges_spec cs 0 m (mono_of_pairwise cs 0 hs) hle hm
   exact ⟨midpointEdges_length cs 0, pairwise_of_mono _ 0 h1, h2⟩
 
+/-- rule-based binnings ('sturges', 'scott', 'fd', 'sqrt', 'doane'): as many edges as the derived
+number of classes, non-decreasing, above the smallest and ending exactly at the largest distance
+within the effective maximum lag -/
+theorem C02_rule_based (lo hi : Rat) (k : ℕ) (hk : 0 < k) (h : lo ≤ hi) :
+    (linspaceEdges lo hi k).length = k ∧
+    (linspaceEdges lo hi k).Pairwise (· ≤ ·) ∧
+    (∀ e ∈ linspaceEdges lo hi k, lo ≤ e ∧ e ≤ hi) ∧
+    (linspaceEdges lo hi k).getLast? = some hi := by
+  have hk' : (0 : Rat) < (k : Rat) := by exact_mod_cast hk
+  have hd : 0 ≤ hi - lo := sub_nonneg.2 h
+  refine ⟨by simp [linspaceEdges], ?_, ?_, ?_⟩
+  · unfold linspaceEdges
+    apply pairwise_map_range
+    intro i j hij _
+    have : (i : Rat) < (j : Rat) := by exact_mod_cast hij
+    have : (hi - lo) * ((i : Rat) + 1) / k ≤ (hi - lo) * ((j : Rat) + 1) / k := by
+      apply div_le_div_of_nonneg_right _ hk'.le
+      nlinarith
+    linarith
+  · intro e he
+    unfold linspaceEdges at he
+    obtain ⟨i, hi', rfl⟩ := List.mem_map.1 he
+    have hi'' : ((i : Rat) + 1) ≤ (k : Rat) := by
+      have := List.mem_range.1 hi'
+      exact_mod_cast this
+    have h0 : 0 ≤ (hi - lo) * ((i : Rat) + 1) / k := by positivity
+    have h1 : (hi - lo) * ((i : Rat) + 1) / k ≤ hi - lo := by
+      rw [div_le_iff₀ hk']; nlinarith
+    constructor <;> linarith
+  · unfold linspaceEdges
+    rw [List.getLast?_map, List.getLast?_range]
+    have : k ≠ 0 := by omega
+    simp only [this, if_false, Option.map_some]
+    congr 1
+    have h1 : 1 ≤ k := hk
+    rw [Nat.cast_sub h1]; push_cast; field_simp; ring
+
 /-- maxlag resolution: unset, ratio of the largest distance, absolute, median, mean -/
 theorem C02_resolve (ds : List Rat) (v : Rat) :
     resolveMaxlag .none ds = none ∧
